@@ -125,6 +125,9 @@ type ReplayFile struct {
 // it in a fresh process.
 func shrinkAndWrite(bin, verif, work string, base RunSpec, r *RunResult, v Violation, budget int) (string, error) {
 	spec := base
+	if r.Engine != "" {
+		spec.Engine = r.Engine // the run may come from the property's second engine
+	}
 	spec.Index = r.Index
 	spec.Replay = true
 	spec.Tapes = cloneTapes(r.Tapes)
